@@ -347,6 +347,10 @@ def g_hwconst():
         pre = ('const unsigned char *GR = 0x%x;\n' if kind == 'kptr' else 'unsigned char * const GR = 0x%x;\n') % addr
         P.append(mkprog('hwconst/global/%s/%x' % (kind, addr), uses('GR'), pre=pre))
         P.append(mkprog('hwconst/global-in-func/%s/%x' % (kind, addr), [ExprS(Call('poll', []))], funcs=[Func('poll', None, [], Block(uses('GR')))], pre=pre))
+        if kind == 'ptrk':
+            for other in (0x04, 0x280):
+                pre2 = 'unsigned char * const G2 = 0x%x, * const GR = 0x%x, * const G3 = 0x%x;\n' % (other, addr, 0x2ff - other)
+                P.append(mkprog('hwconst/multi-decl/%x/%x' % (other, addr), uses('GR') + [A(Deref('G2'), V('va')), A(V('vb'), Deref('G3')), Raw('strobe', V('G2'))], pre=pre2))
     return P
 
 
